@@ -1308,3 +1308,34 @@ silent('C12', 'item-length-through-complete-constructor-chain',
 # C01.O6: the same validation after a harmless normalisation of an int-valued float is still a rejection of 2.5
 silent('C01', 'edge-capacity-validated-through-a-local',
        lambda p: {'edges/edge.py': p.modules['edges/edge.py'].src.replace('        if not isinstance(self.capacity, int) or self.capacity <= 0:', '        cap = self.capacity\n        if not isinstance(cap, int) or cap <= 0:', 1)})
+
+
+# ============================================================================================ round-9 rules: behaviour-preserving twins
+# C09.R7: a value comparison with True is a truth test for the documented domain; an identity test is not
+silent('C09', 'machine-blocking-flag-compared-with-eq-true',
+       lambda p: {N_MAC: p.modules[N_MAC].src.replace('                if self.blocking:\n                    blocking_start_time = self.env.now', '                if self.blocking == True:\n                    blocking_start_time = self.env.now', 1)})
+fire('C09', 'splitter-blocking-flag-identity-test', 'C09.R7', 'blocking-test',
+     lambda p: {N_SPL: p.modules[N_SPL].src.replace('if self.blocking:', 'if self.blocking is True:', 1)})
+# C14.R2: logging the reason of the wake-up does not make the departure conditional
+silent('C14', 'fleet-activation-logs-why-it-woke-up',
+       lambda p: M.insert_before(p, S_FLT, 'FleetStore.fleet_activation_process', lambda n: isinstance(n, ast.If) and ast.unparse(n.test) == 'self.items',
+                                 'woke_on_capacity = self.activate_fleet.triggered\nprint(woke_on_capacity)'))
+# C16.R6: reading the recipe into a local is not rewriting it
+silent('C16', 'combiner-reads-recipe-into-a-local',
+       lambda p: {N_CMB: p.modules[N_CMB].src.replace('                    qty = self.target_quantity_of_each_item[edge_idx]', '                    recipe = self.target_quantity_of_each_item\n                    qty = recipe[edge_idx]', 1)})
+fire('C16', 'combiner-recipe-defaulted-in-reset', 'C16.R6', 'recipe-write',
+     lambda p: M.insert_before(p, N_CMB, 'Combiner.reset', lambda n: isinstance(n, ast.If), 'self.target_quantity_of_each_item = [q or 1 for q in self.target_quantity_of_each_item]', which=0))
+# C19.R6 chained assignment: two names for two fresh lists are fine
+silent('C19', 'reqstore-lists-initialised-by-tuple-assignment',
+       lambda p: {S_RS: p.modules[S_RS].src.replace('        self.reserve_put_queue = []  # Queue for managing reserve_put reservations\n        self.reservations_put = []   # List of successful put reservations',
+                                                    '        self.reserve_put_queue, self.reservations_put = [], []', 1)})
+silent('C01', 'reqstore-lists-initialised-by-tuple-assignment',
+       lambda p: {S_RS: p.modules[S_RS].src.replace('        self.reserve_put_queue = []  # Queue for managing reserve_put reservations\n        self.reservations_put = []   # List of successful put reservations',
+                                                    '        self.reserve_put_queue, self.reservations_put = [], []', 1)})
+silent('C04', 'reqstore-lists-initialised-by-tuple-assignment',
+       lambda p: {S_RS: p.modules[S_RS].src.replace('        self.reserve_put_queue = []  # Queue for managing reserve_put reservations\n        self.reservations_put = []   # List of successful put reservations',
+                                                    '        self.reserve_put_queue, self.reservations_put = [], []', 1)})
+# C13.R7: the same product through a local factor
+silent('C13', 'belt-plan-delay-through-a-local-factor',
+       lambda p: M.chain(p, lambda q: M.insert_before(q, S_BELT, 'BeltStore._execute_interruption_plan', M.assign_to('delay'), 'per_slot = item_length / self.speed', which=1),
+                         lambda q: M.replace_node(q, S_BELT, 'BeltStore._execute_interruption_plan', M.assign_to('delay'), 'delay = delay * per_slot', which=1)))
